@@ -22,6 +22,7 @@ import (
 	"net/netip"
 	"strconv"
 	"strings"
+	"time"
 
 	"github.com/miekg/dns"
 	"github.com/semihalev/sdns/config"
@@ -98,10 +99,14 @@ func parseRRs(s string) []rrTok {
 	}
 	var out []rrTok
 	for _, t := range strings.Split(s, ",") {
+		if t == "O" {
+			out = append(out, rrTok{kind: 'O'})
+			continue
+		}
 		f := strings.Split(t, "/")
 		r := rrTok{kind: f[0][0], ttl: uint32(vlib.AtoU64(f[1])), owner: f[2]}
 		switch r.kind {
-		case 'c', 'd':
+		case 'c', 'd', 's':
 			r.target = f[3]
 		case '4', '6':
 			r.ip = vlib.UnHex(f[3])
@@ -118,6 +123,7 @@ type downT struct {
 	mark              byte
 	ans               []rrTok
 	soas              [][2]uint32
+	extra             []rrTok
 }
 
 func parseDown(s string) *downT {
@@ -138,18 +144,26 @@ func parseDown(s string) *downT {
 			d.soas = append(d.soas, [2]uint32{uint32(vlib.AtoU64(a)), uint32(vlib.AtoU64(b))})
 		}
 	}
+	if len(f) > 6 {
+		d.extra = parseRRs(f[6])
+	}
 	return d
 }
 
 type arespT struct {
-	err   byte
-	rcode int
-	ans   []rrTok
+	err       byte
+	rcode     int
+	ans       []rrTok
+	ns, extra []rrTok
 }
 
 func parseAResp(s string) *arespT {
 	f := strings.Split(s, ";")
-	return &arespT{err: f[0][0], rcode: vlib.Atoi(f[1]), ans: parseRRs(f[2])}
+	a := &arespT{err: f[0][0], rcode: vlib.Atoi(f[1]), ans: parseRRs(f[2])}
+	if len(f) > 4 {
+		a.ns, a.extra = parseRRs(f[3]), parseRRs(f[4])
+	}
+	return a
 }
 
 func nameOfHex(s string) string {
@@ -168,9 +182,14 @@ func hexOfName(s string) string {
 
 // ---------------------------------------------------------------- message building
 
+const soaOwner = "z.soa.test."
+
 func tokName(tok, qname string) string {
 	if tok == "0" {
 		return qname
+	}
+	if tok == "z" {
+		return soaOwner
 	}
 	if strings.HasPrefix(tok, "x:") {
 		return tok[2:]
@@ -182,6 +201,9 @@ func nameTok(name, qname string) string {
 	if name == qname {
 		return "0"
 	}
+	if name == soaOwner {
+		return "z"
+	}
 	for i := 1; i < len(aliases); i++ {
 		if aliases[i] == name {
 			return strconv.Itoa(i)
@@ -191,6 +213,11 @@ func nameTok(name, qname string) string {
 }
 
 func buildRR(t rrTok, qname string) dns.RR {
+	if t.kind == 'O' {
+		o := &dns.OPT{Hdr: dns.RR_Header{Name: ".", Rrtype: dns.TypeOPT}}
+		o.SetUDPSize(512)
+		return o
+	}
 	h := dns.RR_Header{Name: tokName(t.owner, qname), Class: dns.ClassINET, Ttl: t.ttl}
 	switch t.kind {
 	case 'c':
@@ -208,6 +235,9 @@ func buildRR(t rrTok, qname string) dns.RR {
 	case 'r':
 		h.Rrtype = dns.TypePTR
 		return &dns.PTR{Hdr: h, Ptr: "host.example."}
+	case 's':
+		h.Rrtype = dns.TypeSOA
+		return &dns.SOA{Hdr: h, Ns: "ns.soa.test.", Mbox: "root.soa.test.", Serial: 1, Refresh: 7200, Retry: 3600, Expire: 86400, Minttl: uint32(vlib.AtoU64(t.target))}
 	}
 	h.Rrtype = dns.TypeTXT
 	return &dns.TXT{Hdr: h, Txt: []string{"x"}}
@@ -227,6 +257,10 @@ func showRR(rr dns.RR, qname string) string {
 		return fmt.Sprintf("6/%d/%s/%s", h.Ttl, o, vlib.Hex(v.AAAA))
 	case *dns.PTR:
 		return fmt.Sprintf("r/%d/%s", h.Ttl, o)
+	case *dns.SOA:
+		return fmt.Sprintf("s/%d/%s/%d", h.Ttl, o, v.Minttl)
+	case *dns.OPT:
+		return "O"
 	}
 	return fmt.Sprintf("o/%d/%s", h.Ttl, o)
 }
@@ -426,6 +460,76 @@ func (o *ocfg) zoneExcluded(qname string) bool {
 	return false
 }
 
+// zoneExcludedLabels: the same judgement on the wire labels of the queried
+// name when the op carries them (a dot inside a label is not a boundary).
+func (o *ocfg) zoneExcludedLabels(qname string, qlabels [][]byte) bool {
+	if qlabels == nil {
+		return o.zoneExcluded(qname)
+	}
+	for _, z := range o.zones {
+		zl := strings.Split(z, ".")
+		if z == "" || len(zl) > len(qlabels) {
+			continue
+		}
+		ok := true
+		for i := 1; i <= len(zl); i++ {
+			if zl[len(zl)-i] != strings.ToLower(string(qlabels[len(qlabels)-i])) {
+				ok = false
+				break
+			}
+		}
+		if ok {
+			return true
+		}
+	}
+	return false
+}
+
+// v4of: the IPv4 address an A record's rdata denotes.
+func v4of(ip []byte) ([4]byte, bool) {
+	switch len(ip) {
+	case 4:
+		return [4]byte(ip), true
+	case 16:
+		if a := netip.AddrFrom16([16]byte(ip)); a.Is4In6() {
+			return a.Unmap().As4(), true
+		}
+	}
+	return [4]byte{}, false
+}
+
+// wireLabels splits an uncompressed wire name into its labels.
+func wireLabels(wn []byte) [][]byte {
+	out := [][]byte{}
+	for i := 0; i < len(wn) && wn[i] != 0; i += 1 + int(wn[i]) {
+		out = append(out, wn[i+1:i+1+int(wn[i])])
+	}
+	return out
+}
+
+// buildQuery assembles a query packet: header, question(s), one root OPT (DO set).
+func buildQuery(wn []byte, qtype, qclass uint16, rd, cd, twoQ bool) []byte {
+	flags := uint16(0)
+	if rd {
+		flags |= 1 << 8
+	}
+	if cd {
+		flags |= 1 << 4
+	}
+	qd := uint16(1)
+	if twoQ {
+		qd = 2
+	}
+	b := []byte{0x10, 0x92, byte(flags >> 8), byte(flags), 0, byte(qd), 0, 0, 0, 0, 0, 1}
+	b = append(b, wn...)
+	b = append(b, byte(qtype>>8), byte(qtype), byte(qclass>>8), byte(qclass))
+	if twoQ {
+		b = append(b, 6, 's', 'e', 'c', 'o', 'n', 'd', 0, 0, 1, 0, 1)
+	}
+	b = append(b, 0, 0, 41, 0x10, 0x00, 0, 0, 0x80, 0, 0, 0)
+	return b
+}
+
 // RFC 8914 info codes that report a DNSSEC validation failure.
 var rfc8914DNSSEC = map[uint16]bool{1: true, 2: true, 5: true, 6: true, 7: true, 8: true, 9: true, 10: true, 11: true, 12: true, 27: true}
 
@@ -503,6 +607,12 @@ func (s *stubQ) Query(ctx context.Context, req *dns.Msg) (*dns.Msg, error) {
 	m.AuthenticatedData = true // a validated A answer: its AD must never reach the AAAA client
 	for _, t := range s.a.ans {
 		m.Answer = append(m.Answer, buildRR(t, s.qname))
+	}
+	for _, t := range s.a.ns {
+		m.Ns = append(m.Ns, buildRR(t, s.qname))
+	}
+	for _, t := range s.a.extra {
+		m.Extra = append(m.Extra, buildRR(t, s.qname))
 	}
 	return m, nil
 }
@@ -716,17 +826,52 @@ func parseClient(s string) netip.Addr {
 func execServe(f []string) vlib.Res {
 	client := parseClient(f[2])
 	internal, rd, cd, wx := f[3][0] == 't', f[3][1] == 't', f[3][2] == 't', f[3][3] == 't'
+	replay, wireBorn, twoQ := false, false, false
+	if len(f[3]) >= 7 {
+		replay, wireBorn, twoQ = f[3][4] == 't', f[3][5] == 't', f[3][6] == 't'
+	}
 	qclass, qtype := uint16(vlib.Atoi(f[4])), uint16(vlib.Atoi(f[5]))
-	qname := nameOfHex(f[6])
 	down := parseDown(f[7])
 	ar := parseAResp(f[8])
 
-	req := new(dns.Msg)
-	req.Id = 4242
-	req.Question = []dns.Question{{Name: qname, Qtype: qtype, Qclass: qclass}}
-	req.RecursionDesired = rd
-	req.CheckingDisabled = cd
-	req.SetEdns0(4096, true)
+	// The request. `w:<hex>` names are uncompressed wire names: the packet is
+	// assembled byte by byte and enters either as a wire-born Request
+	// (Chain.ResetWire, as the UDP/TCP/DoT engines do) or decoded through
+	// dns.Msg.Unpack (as DoH/DoQ do). A bare hex name is presentation text
+	// placed directly in a decoded message.
+	var req *dns.Msg
+	var raw []byte
+	var qname string
+	var qlabels [][]byte
+	if strings.HasPrefix(f[6], "w:") {
+		wn := vlib.UnHex(f[6][2:])
+		qlabels = wireLabels(wn)
+		if wireBorn {
+			twoQ = false
+			wx = false // a ledger handed over as a context value does not cross the detach boundary
+		}
+		raw = buildQuery(wn, qtype, qclass, rd, cd, twoQ)
+		req = new(dns.Msg)
+		if err := req.Unpack(raw); err != nil {
+			return vlib.Res{Impl: "bad-op", Oracle: "-"}
+		}
+		qname = req.Question[0].Name
+		if wireBorn {
+			req = nil
+		}
+	} else {
+		wireBorn = false
+		qname = nameOfHex(f[6])
+		req = new(dns.Msg)
+		req.Id = 4242
+		req.Question = []dns.Question{{Name: qname, Qtype: qtype, Qclass: qclass}}
+		if twoQ {
+			req.Question = append(req.Question, dns.Question{Name: "second.example.", Qtype: dns.TypeA, Qclass: dns.ClassINET})
+		}
+		req.RecursionDesired = rd
+		req.CheckingDisabled = cd
+		req.SetEdns0(4096, true)
+	}
 
 	sq := &stubQ{a: ar, qname: qname}
 	if ar.err == 'q' {
@@ -754,8 +899,11 @@ func execServe(f []string) vlib.Res {
 			m.Answer = append(m.Answer, buildRR(t, qname))
 		}
 		for _, s := range down.soas {
-			m.Ns = append(m.Ns, &dns.SOA{Hdr: dns.RR_Header{Name: "example.org.", Rrtype: dns.TypeSOA, Class: dns.ClassINET, Ttl: s[0]},
+			m.Ns = append(m.Ns, &dns.SOA{Hdr: dns.RR_Header{Name: soaOwner, Rrtype: dns.TypeSOA, Class: dns.ClassINET, Ttl: s[0]},
 				Ns: "ns.example.org.", Mbox: "root.example.org.", Serial: 1, Refresh: 7200, Retry: 3600, Expire: 86400, Minttl: s[1]})
+		}
+		for _, t := range down.extra {
+			m.Extra = append(m.Extra, buildRR(t, qname))
 		}
 		if down.opt {
 			o := &dns.OPT{Hdr: dns.RR_Header{Name: ".", Rrtype: dns.TypeOPT}}
@@ -791,8 +939,21 @@ func execServe(f []string) vlib.Res {
 	}
 	mw := mock.NewWriter("udp", addr)
 	ch := middleware.NewChain([]middleware.Handler{cur, downstream})
-	ch.Reset(mw, req)
+	var wreq middleware.Request
+	if wireBorn {
+		if !wreq.ParseWire(raw, time.Now(), nil) {
+			return vlib.Res{Impl: "bad-op", Oracle: fail("serve/wire/parsewire-refused-a-plain-query", "")}
+		}
+		ch.ResetWire(mw, &wreq)
+	} else {
+		ch.Reset(mw, req)
+	}
+	if replay {
+		// the worker pass that finishes a query the inline reader handed off (server/strict.go)
+		ch.SetReplay()
+	}
 	ch.Next(ctx)
+	defer ch.Finish()
 
 	if !mw.Written() {
 		or := "ok"
@@ -815,16 +976,51 @@ func execServe(f []string) vlib.Res {
 	if sq.calls > 0 {
 		aq = int(sq.lastType)
 	}
-	impl := fmt.Sprintf("same=%s rc=%d ad=%s aq=%d ede4=%s ans=%s", vlib.B(same), reply.Rcode, vlib.B(reply.AuthenticatedData), aq, vlib.B(hasEDE(reply, 4)), at)
+	sect := func(rrs []dns.RR) string {
+		var out []string
+		for _, rr := range rrs {
+			out = append(out, showRR(rr, qname))
+		}
+		if len(out) == 0 {
+			return "-"
+		}
+		return strings.Join(out, ",")
+	}
+	impl := fmt.Sprintf("same=%s rc=%d ad=%s aq=%d ede4=%s ans=%s ns=%s ex=%s", vlib.B(same), reply.Rcode, vlib.B(reply.AuthenticatedData), aq,
+		vlib.B(hasEDE(reply, 4)), at, sect(reply.Ns), sect(reply.Extra))
 
-	or := judgeServe(client, internal, rd, cd, qclass, qtype, qname, down, ar, reply, same, sq)
-	return vlib.Res{Impl: impl, Oracle: or, Tags: "nt"}
+	or := judgeServe(client, internal, rd, cd, qclass, qtype, qname, qlabels, down, ar, reply, same, sq)
+	if twoQ && strings.Contains(or, "sig=ptr/roundtrip/") {
+		or = "ok" // a request with two questions is not a PTR query the property speaks about
+	}
+	if or == "ok" {
+		nopt := 0
+		for _, rr := range reply.Extra {
+			if _, ok := rr.(*dns.OPT); ok {
+				nopt++
+			}
+		}
+		if nopt > 1 {
+			or = fail("serve/sections/more-than-one-opt", fmt.Sprint(nopt))
+		}
+	}
+	tags := "nt"
+	if replay {
+		tags += ",replay"
+	}
+	if wireBorn {
+		tags += ",wire"
+	}
+	if qlabels != nil {
+		tags += ",wirename"
+	}
+	return vlib.Res{Impl: impl, Oracle: or, Tags: tags}
 }
 
 // judgeServe is the property oracle for one reply: it re-derives everything
 // from the op line (configuration entries, query flags, scripted downstream
 // and A responses) and the property text; it never calls package dns64.
-func judgeServe(client netip.Addr, internal, rd, cd bool, qclass, qtype uint16, qname string,
+func judgeServe(client netip.Addr, internal, rd, cd bool, qclass, qtype uint16, qname string, qlabels [][]byte,
 	down *downT, ar *arespT, reply *dns.Msg, same bool, sq *stubQ) string {
 	o := curO
 	eligible := len(o.clients) == 0 || inAny(o.clients, client)
@@ -931,7 +1127,7 @@ func judgeServe(client netip.Addr, internal, rd, cd bool, qclass, qtype uint16, 
 	}{"qtype-not-aaaa", qtype == dns.TypeAAAA}, struct {
 		name string
 		open bool
-	}{"zone-excluded", !o.zoneExcluded(qname)})
+	}{"zone-excluded", !o.zoneExcludedLabels(qname, qlabels)})
 	for _, g := range gates {
 		if !g.open {
 			return fail("serve/gate/"+g.name, "synthesised although the gate is closed")
@@ -1002,6 +1198,13 @@ func judgeServe(client netip.Addr, internal, rd, cd bool, qclass, qtype uint16, 
 	var as []rrTok
 	for _, t := range ar.ans {
 		if t.kind == '4' {
+			// A rdata: 4 bytes, or the 16-byte ::ffff:a.b.c.d form the wire decoder
+			// produces; any other 16 bytes are not an IPv4 address.
+			v, ok := v4of(t.ip)
+			if !ok {
+				continue
+			}
+			t.ip = v[:]
 			as = append(as, t)
 			if tokName(t.owner, qname) != terminal {
 				wellFormed = false
